@@ -571,6 +571,9 @@ def handle (op : String) (j : Json) : R Json := do
     let L ← nat j "length"
     let es ← (← arr j "entries").mapM entryOfJson
     pure (Json.mkObj [("fits", Json.bool (floatingFitsB L es)), ("nested", Json.bool (nestedB es))])
+  | "consts" =>
+    -- the constants regenerated from the source (hypotheses of `complete_floating` / `inv_addField`)
+    pure (Json.mkObj [("scan_slack", jNat SCAN_SLACK), ("max_value_default", jNat MAX_VALUE_DEFAULT)])
   | "instance" =>
     -- the instance predicates on a tree and a `field_values` dict dumped from the implementation
     let es ← (← arr j "entries").mapM entryOfJson
